@@ -460,10 +460,18 @@ func c02Find(c *Ctx, cs *C02Case, r *Rng, out *CaseOut, wantSig string) []c02Fai
 	x := newC02Run(cs, cliPath)
 	canon, vars := c02Plan(r, cs)
 	if len(cs.Prelude) > 0 {
+		// earlier activity of this process, BEFORE the canonical execution: another engine,
+		// configured differently (same tags, other filters), renders sibling templates and
+		// this very template. A pristine child process then gives the reference.
 		pe := NewEngine(cs.Cfg)
+		pe.RegisterFilter("upcase", func(s string) string { return "!prelude-engine-upcase!" })
+		pe.RegisterFilter("join", func(a []any) string { return "!prelude-engine-join!" })
+		pe.RegisterFilter("size", func(a any) int { return -78 })
+		pe.RegisterFilter("hx", func(s string) string { return "!prelude-engine-hx!" })
+		pe.RegisterFilter("append", func(s, t string) string { return "!prelude-engine-append!" })
 		simrt.SetMapOrder(simrt.OrderAsc, 0)
 		simrt.SetClock(t0)
-		for _, src := range cs.Prelude {
+		for _, src := range append(append([]string{}, cs.Prelude...), x.src) {
 			Run(EPParseAndRender, pe, nil, src, x.b0, nil)
 		}
 	}
